@@ -3,6 +3,7 @@ import ClaripyProofs.Lemmas.AST.FoldSound
 import ClaripyProofs.Lemmas.AST.ACNormSoundB
 import ClaripyProofs.Lemmas.AST.BitsSound
 import ClaripyProofs.Lemmas.AST.CmpSound
+import ClaripyProofs.Lemmas.AST.AndEqNeSound
 /-!
 # C01 — bit-vector and Boolean expressions mean exactly what the written operations say
 
@@ -104,6 +105,17 @@ example : cmpEquiv (.app .eq [.app .band [.bvs "x" 2, .bvv 1 2], .bvv 1 2]) (.ap
   decide
 example : cmpEquiv (.app .ne [.app .band [.bvs "x" 4, .bvv 3 4], .bvv 6 4]) (.boolv true) = true := by decide
 example : cmpEquiv (.app .eq [.bvs "x" 4, .bvv 6 4]) (.app .eq [.bvs "x" 4, .bvv 7 4]) = false := by decide
+
+/-- `And` of equalities / disequalities of ONE expression with literals (the tail of boolean_and_simplifier:
+`x == 1 && x != 2 ⇒ x == 1`, `x == 1 && x == 3 ⇒ false`, `x == 1 && x != 1 ⇒ false`): a collapse accepted by `andEqNeAuto`
+preserves the truth value of a well-typed conjunction, for every number of conjuncts and every width. -/
+theorem C01_and_eq_ne_sound (lhs rhs : Expr) (h : andEqNeAuto lhs rhs = true) (env : Env) (v : Bool)
+    (hl : eval env lhs = .bool v) : eval env rhs = eval env lhs := andEqNeAuto_sound lhs rhs h env v hl
+
+example : andEqNeAuto (.app .and [.app .eq [.bvs "x" 8, .bvv 1 8], .app .ne [.bvs "x" 8, .bvv 2 8], .app .ne [.bvv 3 8, .bvs "x" 8]])
+    (.app .eq [.bvs "x" 8, .bvv 1 8]) = true := by decide
+example : andEqNeAuto (.app .and [.app .eq [.bvs "x" 8, .bvv 1 8], .app .eq [.bvs "x" 8, .bvv 3 8]]) (.boolv false) = true := by decide
+example : andEqNeAuto (.app .and [.app .eq [.bvs "x" 8, .bvv 1 8], .app .ne [.bvs "x" 8, .bvv 2 8]]) (.boolv false) = false := by decide
 
 /-- the check is not vacuous: it accepts `(a ^ b) ^ (b ^ a) ⇒ 0` and `(a + 3) + (5 + b) ⇒ a + b + 8`, and rejects `a + b ⇒ a + c` -/
 example : acEquiv .bxor 8 (.app .bxor [.app .bxor [.bvs "a" 8, .bvs "b" 8], .app .bxor [.bvs "b" 8, .bvs "a" 8]]) (.bvv 0 8) = true := by
